@@ -244,6 +244,7 @@ def run(chk: Check) -> None:
     certified = rejected = toobig = errors = 0
     uncertified_by_pass: dict[str, int] = {}
     viol_seen: set[str] = set()
+    rejected_samples: list[dict] = []
     for req, m in zip(requests, meta):
         verdict = None
         if req is not None:
@@ -275,6 +276,9 @@ def run(chk: Check) -> None:
                 _save_models(chk, m, key)
         else:
             uncertified_by_pass[m["pass"]] = uncertified_by_pass.get(m["pass"], 0) + 1
+            if len(rejected_samples) < 20:
+                rejected_samples.append({"pass": m["pass"], "desc": m["desc"], "validator": verdict or "not-asked",
+                                         "ort": cmp["status"]})
     chk.info("programs", len(cases))
     chk.info("families", fam_count)
     chk.info("guard_perturbations", guard_count)
@@ -283,6 +287,7 @@ def run(chk: Check) -> None:
                        "rejected_by_validator": rejected, "too_big_for_tree_terms": toobig,
                        "driver_errors": errors,
                        "rejected_but_equal_in_ORT(by pass)": uncertified_by_pass})
+    chk.info("rejected_but_equal_samples", rejected_samples)
     chk.info("invalid_generated_graphs_skipped", invalid_generated)
     chk.info("generation_s", round(gen_s, 1))
     chk.add("traces_validated_against_impl", len(requests))
